@@ -291,6 +291,9 @@ def vocab_diffs(dom, domain, ordered=True):
     out = []
     if type_closure(exp["types"]) != type_closure(got["types"]):
         out.append(("types", {"expected": exp["types"], "got": got["types"]}))
+    elif got.get("type_chains") is not None and got["type_chains"] != type_closure(got["types"]):
+        # entry by entry the table is right, but a type object's own parent chain says something else
+        out.append(("types-parent-objects", {"table": type_closure(got["types"]), "following_parent_objects": got["type_chains"]}))
     for k in ("constants", "predicates", "functions", "actions"):
         if exp[k] != got[k] or (ordered and list(exp[k]) != list(got[k])):
             out.append((k, {"expected": exp[k], "got": got[k]}))
@@ -691,6 +694,10 @@ def apply_ops(dom, inj):
 def gen(ch, tier):
     ft = G.feats(max_actions=2, p_long_number=0.15, long_decimals=7)
     case = S.gen_sem_case(ch, tier, ft, n_probes=4)
+    if case["dom"].get("typed", True) and len(case["dom"]["types"]) >= 2 and ch.flag(0.4):
+        # the :types section written another way: children before parents, groups split, roots bare or implicit
+        from pv.props import c06
+        case["dom"]["type_decl"] = c06.draw_decl(ch, [list(p) for p in case["dom"]["types"]])
     if ch.flag(0.35):
         tag = ch.choice(OUTSIDE)
         ops = inject(ch, case["dom"], tag)
